@@ -26,6 +26,8 @@ type Facts struct {
 	PanicGuard    string      `json:"panic_guard"`    // condition guarding panic("unreachable: function names cannot be changed…")
 	NewNameSource string      `json:"newname_source"` // the candidate-building statements of newName
 	TakenSource   string      `json:"taken_source"`   // body of typesMap.taken
+	ImportNames   []string    `json:"import_names"`   // names given to p.NewImport(name, path) in plugin/*/*.go
+	ImportAssumed []string    `json:"import_names_assumed"` // names.ImportNames: what the model lines put into `reserved`
 	ReservedWords []string    `json:"reserved_words"` // go/token keywords, then types.Universe.Names(), of the toolchain this tool is built with
 }
 
@@ -41,6 +43,7 @@ func ExtractFacts(repo string) (*Facts, error) {
 	fset := token.NewFileSet()
 	// plugin name/prefix by package directory
 	byDir := map[string][2]string{}
+	importNames := map[string]bool{}
 	dirs, err := os.ReadDir(filepath.Join(repo, "plugin"))
 	if err != nil {
 		return nil, err
@@ -64,6 +67,14 @@ func ExtractFacts(repo string) (*Facts, error) {
 					return true
 				}
 				sel, ok := call.Fun.(*ast.SelectorExpr)
+				if ok && sel.Sel.Name == "NewImport" && len(call.Args) == 2 {
+					if lit, ok := call.Args[0].(*ast.BasicLit); ok {
+						if nm, err := strconv.Unquote(lit.Value); err == nil {
+							importNames[nm] = true
+						}
+					}
+					return true
+				}
 				if !ok || sel.Sel.Name != "NewPlugin" || len(call.Args) != 3 {
 					return true
 				}
@@ -85,6 +96,11 @@ func ExtractFacts(repo string) (*Facts, error) {
 			})
 		}
 	}
+	for n := range importNames {
+		fs.ImportNames = append(fs.ImportNames, n)
+	}
+	sort.Strings(fs.ImportNames)
+	fs.ImportAssumed = append([]string(nil), ImportNames...)
 	// main.go: import alias -> plugin dir; registration order
 	mf, err := parser.ParseFile(fset, filepath.Join(repo, "main.go"), nil, 0)
 	if err != nil {
